@@ -15,7 +15,6 @@ sequence length OR in length including gaps.
 
 import random
 import re
-from fractions import Fraction
 
 from . import pipeline_gen as pg
 from .common import Collector
@@ -275,12 +274,12 @@ def make_case(rng, idx, allow_unloc_only=True):
     inp = []
     cache = {}
 
-    def new_pieces(n_contigs=None, hap=None, cut_p=0.6, min_len=0):
+    def new_pieces(n_contigs=None, hap=None, cut_p=0.6, min_len=0, lens=LENS, gap_choices=((10, "scaffold"), (1, "contig"), (200, "scaffold"), None)):
         """a fresh input scaffold and its pieces (whole, or cut in cut_mode)"""
         nonlocal src_n
         src_n += 1
         k = n_contigs or rng.choice((1, 1, 2))
-        lt = [rng.choice([x for x in LENS if x >= min_len]) for _ in range(k)]
+        lt = [rng.choice([x for x in lens if x >= min_len]) for _ in range(k)]
         if two:
             h = hap or rng.choice(hap_tags)
             form = rng.choice((h.upper(), h.lower(), h))
@@ -289,7 +288,7 @@ def make_case(rng, idx, allow_unloc_only=True):
         else:
             name = f"scaffold_{src_n}"
             naming = rng.choice(("own", "fasta", "offset"))
-        gaps = [rng.choice(((10, "scaffold"), (1, "contig"), (200, "scaffold"), None)) for _ in range(k - 1)]
+        gaps = [rng.choice(gap_choices) for _ in range(k - 1)]
         s = pg.make_scaffold(name, lt, [rng.choice((1, -1)) for _ in range(k)], gaps, naming, tag=str(src_n))
         inp.append(s)
         ln = pg.rows_len(s["rows"])
@@ -316,6 +315,12 @@ def make_case(rng, idx, allow_unloc_only=True):
                 for p in new_pieces(hap=h):
                     pcs.append((p, rng.choice((1, -1)), ["Unloc"] if unloc_only else []))
             for _ in range(rng.choice((0, 0, 0, 1, 2, 3))):
+                if cut_mode and rng.random() < 0.25:
+                    # a gappy scaffold of short contigs cut into pieces, only some of which are marked Unloc
+                    src = new_pieces(rng.choice((2, 3)), hap=h, cut_p=1.0, lens=(7, 20, 40, 40, 150), gap_choices=((100, "scaffold"), (10, "scaffold"), (200, "scaffold")))
+                    for p in src:
+                        pcs.append((p, rng.choice((1, -1)), ["Unloc"] if rng.random() < 0.5 else []))
+                    continue
                 for p in new_pieces(1, hap=h, cut_p=0.1):
                     pcs.append((p, rng.choice((1, -1)), ["Unloc"]))
             if rng.random() < 0.15:
@@ -338,6 +343,39 @@ def make_case(rng, idx, allow_unloc_only=True):
     return {"input": inp, "map": mp, "prefix": prefix, "via": pg.pick_via(inp, idx), "mode": "two" if two else "single"}
 
 
+def _fx(name, *rows):
+    return {"name": name, "rows": list(rows)}
+
+
+_P = ["Painted"]
+# hand-made minimal cases that are always run (each reproduces one named class on the tree as first verified)
+FIXED_CASES = [
+    # unlocs are ranked before contigs are cut: the 4 bp piece outranks the 16 bp piece
+    {
+        "input": [_fx("scaffold_1", pg.F("scaffold_1", 1, 40)), _fx("scaffold_2", pg.F("scaffold_2", 1, 20))],
+        "map": {"bpt": 1.0, "scaffolds": [[["scaffold_1", 1, 40, 1, _P], ["scaffold_2", 1, 4, 1, _P + ["Unloc"]], ["scaffold_2", 5, 20, 1, _P + ["Unloc"]]]]},
+        "prefix": "SUPER_", "via": "agp", "mode": "single",
+    },
+    # a painted scaffold made of Unloc pieces only: its first unloc is listed as localised
+    {
+        "input": [_fx("scaffold_1", pg.F("scaffold_1", 1, 40)), _fx("scaffold_2", pg.F("scaffold_2", 1, 20))],
+        "map": {"bpt": 1.0, "scaffolds": [[["scaffold_1", 1, 40, 1, _P]], [["scaffold_2", 1, 20, 1, _P + ["Unloc"]]]]},
+        "prefix": "SUPER_", "via": "agp", "mode": "single",
+    },
+    # an Unloc piece (gap + 13 bp sliver of ctgB) takes number 1 and is emptied afterwards: SUPER_1_unloc_2 without _unloc_1
+    {
+        "input": [
+            _fx("scaffold_1", pg.F("scaffold_1", 1, 400)),
+            _fx("scaffold_2", pg.F("ctgA", 1, 120), pg.G(100), pg.F("ctgB", 1, 40), pg.G(10), pg.F("ctgC", 1, 150)),
+            _fx("scaffold_3", pg.F("scaffold_3", 1, 34)),
+        ],
+        "map": {"bpt": 33.3, "scaffolds": [[["scaffold_1", 1, 399, 1, _P], ["scaffold_2", 1, 166, 1, _P], ["scaffold_2", 167, 233, 1, _P + ["Unloc"]],
+                                           ["scaffold_2", 234, 399, 1, _P], ["scaffold_3", 1, 33, 1, _P + ["Unloc"]]]]},
+        "prefix": "SUPER_", "via": "agp", "mode": "single",
+    },
+]
+
+
 def run(tier, seed, **opts):
     rng = random.Random(seed)
     col = Collector(
@@ -348,13 +386,13 @@ def run(tier, seed, **opts):
         "frequent; prefixes SUPER_/chr/Chr_; oracle: names, numbering, size ranking, order and CSV from the statement; "
         "non-trivial = distinct completed case with >= 2 painted scaffolds or an Unloc/Haplotig piece"
     )
-    n_cases = 3500 if tier == "quick" else 100000
+    n_cases = 3500 if tier == "quick" else 80000
     stats = {"rejected_tagging": 0, "judged": 0, "single": 0, "two": 0}
     side = {}
-    for i in range(n_cases):
+    for i in range(-len(FIXED_CASES), n_cases):
         if col.full:
             break
-        case = make_case(rng, i)
+        case = FIXED_CASES[i] if i < 0 else make_case(rng, i)
         judged = check(case, col, side)
         stats[case["mode"]] += 1
         if judged is None:
@@ -368,7 +406,7 @@ def run(tier, seed, **opts):
         col.failures.extend(lst[:2])
     return col.result(
         bounds=(
-            f"{n_cases} seeded cases; up to ~40 input scaffolds x <= 2 contigs; texel sizes {{1,2.5,10,33.3}}; painted scaffolds / "
+            f"{len(FIXED_CASES)} fixed hand-made cases + {n_cases} seeded cases; up to ~40 input scaffolds x <= 2 contigs; texel sizes {{1,2.5,10,33.3}}; painted scaffolds / "
             f"unloc pieces whose destination was identified and judged: {stats['judged']}; maps rejected with "
             f"TaggingError/ChrNamerError (allowed): {stats['rejected_tagging']}; single-haplotype={stats['single']} "
             f"two-haplotype={stats['two']}; cases failing only in a named class: "
